@@ -165,9 +165,20 @@ def run(prog, rep, tier, repo):
         for tgt, w in want.items():
             key = 'recurrence:sgd:%s' % tgt
             g_ = got.get(tgt)
-            if g_ == w:
+            # hoisted form: `let update = mom*u[p] + a*g[p]; u[p] = update; params[p] = params[p] - update` -- the same quantity, evaluated once
+            hoisted = False
+            if tgt == 'params[p]' and got.get('u[p]') == want['u[p]'] and g_ == 'Sub(params[p],%s)' % want['u[p]']:
+                su_ = [s_ for s_ in st if canon(f, s_.target, fn, me, alias) == 'u[p]']
+                sp_ = [s_ for s_ in st if canon(f, s_.target, fn, me, alias) == 'params[p]']
+                # one evaluation: both stores carry the very same term object path (a single-definition local inlined twice), and the
+                # product momentum*u[p] is computed by exactly one call in the loop
+                nmul = sum(1 for c_ in f.calls() if c_.path and canon(f, ('call', c_.path, c_.args, None), fn, me, alias) == 'Mul(momentum,u[p])')
+                hoisted = bool(su_ and sp_) and nmul <= 1
+            if g_ == w or hoisted:
                 rep.ok('recurrence', key, '%s := %s' % (tgt, g_))
                 rep.sample('SGD: %s := %s' % (tgt, g_))
+            elif g_ is None:
+                rep.undecided('recurrence', key, 'no element store into %s recognised (statements: %s)' % (tgt, sorted(got)), site_of(f.body), proof=False)
             else:
                 rep.viol('recurrence', key, 'SGD updates %s := %s; the momentum rule is %s' % (tgt, g_, w), site_of(f.body))
         # order: update_vec is updated before it is subtracted
@@ -175,7 +186,13 @@ def run(prog, rep, tier, repo):
         su = [s for s in st if canon(f, s.target, fn, me, alias) == 'u[p]']
         sp = [s for s in st if canon(f, s.target, fn, me, alias) == 'params[p]']
         ok = su and sp and (f.cfg.dominates(su[0].bb, sp[0].bb) and (su[0].bb != sp[0].bb or su[0].idx < sp[0].idx))
-        (rep.ok if ok else rep.viol)('recurrence', key, 'the velocity is updated before it is applied' if ok else 'parameters are updated with the stale velocity', site_of(f.body))
+        reads_u = bool(sp) and any(canon(f, z, fn, me, alias) == 'u[p]' for z in subterms(sp[0].value)) and got.get('params[p]') == want['params[p]']
+        if ok or (su and sp and not reads_u):
+            rep.ok('recurrence', key, 'the velocity is updated before it is applied' if ok else 'the parameter update does not read the velocity buffer (hoisted update)')
+        elif not su or not sp:
+            rep.undecided('recurrence', key, 'velocity / parameter stores not recognised', site_of(f.body), proof=False)
+        else:
+            rep.viol('recurrence', key, 'parameters are updated with the stale velocity', site_of(f.body))
         # gradient point
         key = 'recurrence:sgd:gradient-point'
         gs = [s for s in f.stores() if tag(s.target) == 'local' and s.target[2] == 'grad']
@@ -299,39 +316,98 @@ def _is_lookahead(g, rv, fn):
 
 
 def _early_stop(prog, rep, f, name):
+    """Every way out of the optimisation loop is the step limit or the convergence criterion max_i rel_diff(theta_i, previous theta_i) < eps,
+    in whatever control-flow idiom (while condition, `loop` with breaks, a `converged` flag or a direct test)."""
     rep.touch(f.body.key)
     maxsteps = ('arg', 5, f.names.get(5))
-    tl = [s.target for s in f.stores() if tag(s.target) == 'local' and s.target[2] == 't']
-    cl = [s.target for s in f.stores() if tag(s.target) == 'local' and s.target[2] == 'converged']
+
+    def mentions_rel_diff(t, depth=0):
+        for z in subterms(t):
+            if tag(z) == 'call' and z[1] == 'approx_eq::rel_diff':
+                return True
+            if tag(z) == 'agg' and z[1] == 'closure' and depth < 3:
+                g = prog.func(z[2])
+                if g is not None and any(mentions_rel_diff(r, depth + 1) for r in g.return_values()):
+                    return True
+            if tag(z) == 'local' and depth < 3:
+                for st in f.stores():
+                    if st.target == z and st.value != z and mentions_rel_diff(st.value, depth + 1):
+                        return True
+        return False
+
+    def is_criterion(cn):
+        """max(rel_diff(..)) < tiny constant"""
+        if tag(cn) != 'bin' or cn[1] not in ('Lt', 'Le'):
+            return False
+        a, b = cn[2], cn[3]
+        return tag(a) == 'call' and a[1] == 'statistics::order::max' and tag(b) == 'const' and isinstance(b[2], float) and 0 < b[2] < 1e-10 and mentions_rel_diff(a)
+
+    def classify(cn, v):
+        """'limit' / 'converged' / 'other' / None(unknown)"""
+        if tag(cn) == 'un' and cn[1] == 'Not':
+            return classify(cn[2], (not v) if isinstance(v, bool) else v)
+        if tag(cn) == 'bin' and cn[1] in ('Lt', 'Le', 'Gt', 'Ge') and maxsteps in (cn[2], cn[3]) and isinstance(v, bool):
+            other = cn[3] if cn[2] == maxsteps else cn[2]
+            if tag(other) == 'local':
+                op = cn[1] if cn[2] == other else {'Lt': 'Gt', 'Le': 'Ge', 'Gt': 'Lt', 'Ge': 'Le'}[cn[1]]      # t op maxsteps
+                leaves = (op in ('Ge', 'Gt') and v is True) or (op in ('Lt', 'Le') and v is False)
+                return 'limit' if leaves else 'other'
+        if is_criterion(cn):
+            return 'converged' if v is True else 'other'
+        if tag(cn) == 'local' and f.body.local_ty(cn[1]) == 'bool':
+            defs = [st for st in f.stores() if st.target == cn]
+            if not defs:
+                return None
+            oks = []
+            for st in defs:
+                if tag(st.value) == 'const' and st.value[2] is False:
+                    oks.append(True)
+                elif tag(st.value) == 'const' and st.value[2] is True:
+                    oks.append(any(is_criterion(c2) and v2 is True for c2, v2 in f.guards().get(st.bb, [])))
+                else:
+                    oks.append(is_criterion(st.value))
+            if all(oks):
+                return 'converged' if v is True else 'other'
+            return 'flag-not-criterion'
+        if tag(cn) == 'discr':
+            return 'skip'
+        if tag(cn) == 'bin' and len(cn) > 4 and cn[4] in ('f64', 'f32'):
+            return 'other'
+        if tag(cn) == 'call' and short(cn[1]) in ('all', 'any'):
+            return 'other'
+        return None
+    loops = f.cfg.loops()
+    main = None
+    for h, blocks in loops.items():
+        if main is None or len(blocks) > len(main[1]):
+            main = (h, blocks)
     key = 'early-stop:%s:loop-condition' % name
-    ok = False
-    if tl and cl:
-        loops = f.cfg.loops()
-        for h, blocks in loops.items():
-            if len(blocks) < 10:
-                continue
-            exits = [(cn, v) for s, d, cn, v in f.edge_conditions() if s in blocks and d not in blocks and f.body.blocks[d].term.kind != 'unreachable']
-            e1 = any(tag(cn) == 'bin' and cn[1] == 'Lt' and cn[2] == tl[0] and cn[3] == maxsteps and v is False for cn, v in exits)
-            e2 = any((cn == cl[0] and v is True) or (tag(cn) == 'un' and cn[1] == 'Not' and cn[2] == cl[0] and v is False) for cn, v in exits)
-            if e1 and e2 and len(exits) == 2:
-                ok = True
-    (rep.ok if ok else rep.viol)('early-stop', key, 'loop runs while t < maxsteps && !converged (no other exit)' if ok else 'the optimisation loop has other exits than t >= maxsteps or converged', site_of(f.body))
-    key = 'early-stop:%s:flag' % name
-    sets = [s for s in f.stores() if cl and s.target == cl[0] and tag(s.value) == 'const' and s.value[2] is True]
-    ok = False
-    if len(sets) == 1:
-        gs = f.guards().get(sets[0].bb, [])
-        for cn, v in gs:
-            if v is True and tag(cn) == 'bin' and cn[1] == 'Lt' and tag(cn[2]) == 'call' and cn[2][1] == 'statistics::order::max' and tag(cn[3]) == 'const' and 0 < cn[3][2] < 1e-10:
-                # the mapped closure computes rel_diff(params[i].val(), prev[i].val())
-                src = cn[2][2][0]
-                cls = [z for z in subterms(src) if tag(z) == 'agg' and z[1] == 'closure']
-                if cls:
-                    g = prog.func(cls[0][2])
-                    rv = g.return_values()
-                    if len(rv) == 1 and tag(rv[0]) == 'call' and rv[0][1] == 'approx_eq::rel_diff':
-                        ups = cls[0][3]
-                        names = sorted((u[2] if tag(u) == 'local' else show(u)[:20]) or '' for u in ups)
-                        ok = any(tag(u) == 'local' and u[2] == 'params' for u in ups) and any(tag(u) == 'call' and short(u[1]) == 'clone' for u in ups)
-    (rep.ok if ok else rep.viol)('early-stop', key, 'converged is set only when max_i rel_diff(theta_i, previous theta_i) < EPSILON' if ok else
-                                 'the convergence flag is not governed by the relative parameter change', site_of(f.body))
+    key2 = 'early-stop:%s:flag' % name
+    if main is None:
+        rep.undecided('early-stop', key, 'no optimisation loop found', proof=False)
+        rep.undecided('early-stop', key2, 'no optimisation loop found', proof=False)
+        return
+    blocks = main[1]
+    exits = [(cn, v) for s_, d_, cn, v in f.edge_conditions() if s_ in blocks and d_ not in blocks and not f.cfg.only_panics_from(d_)]
+    kinds = [(classify(cn, v), cn, v) for cn, v in exits]
+    kinds = [k_ for k_ in kinds if k_[0] != 'skip']
+    others = [k_ for k_ in kinds if k_[0] == 'other']
+    unknown = [k_ for k_ in kinds if k_[0] is None]
+    badflag = [k_ for k_ in kinds if k_[0] == 'flag-not-criterion']
+    has_limit = any(k_[0] == 'limit' for k_ in kinds)
+    has_conv = any(k_[0] == 'converged' for k_ in kinds)
+    if others:
+        rep.viol('early-stop', key, 'the optimisation loop can also be left when `%s` is %s: the returned point is then not the k-th iterate of the recurrence '
+                 '(only the step limit and the convergence criterion may end the run)' % (show(others[0][1])[:80], others[0][2]), site_of(f.body))
+    elif unknown:
+        rep.undecided('early-stop', key, 'exit condition %s not classified' % show(unknown[0][1])[:80], site_of(f.body), proof=False)
+    elif has_limit:
+        rep.ok('early-stop', key, 'the loop is left only at the step limit%s' % (' or on convergence' if has_conv else ''))
+    else:
+        rep.viol('early-stop', key, 'no exit of the optimisation loop tests the step counter against maxsteps', site_of(f.body))
+    if badflag:
+        rep.viol('early-stop', key2, 'the flag that ends the run (%s) is also set by something other than max_i rel_diff(theta_i, previous theta_i) < EPSILON' % show(badflag[0][1]), site_of(f.body))
+    elif has_conv:
+        rep.ok('early-stop', key2, 'the run ends early only when max_i rel_diff(theta_i, previous theta_i) < EPSILON')
+    else:
+        rep.undecided('early-stop', key2, 'no convergence exit recognised', site_of(f.body), proof=False)
